@@ -1052,3 +1052,77 @@ func blockNeverReturns(b *ssa.BasicBlock) bool {
 	}
 	return false
 }
+
+// theProg is the program under analysis (set by loadProg); it lets the
+// path helpers follow calls into repository helpers.
+var theProg *Prog
+
+// liftPass extends an instruction predicate to calls of repository helpers
+// (including immediately invoked and deferred closures are NOT included) that
+// perform a satisfying instruction on every one of their returning paths, up to
+// the given call depth: extracting "the thing that must happen" into a helper
+// does not change a must-pass-through verdict.
+func liftPass(pass func(ssa.Instruction) bool, depth int) func(ssa.Instruction) bool {
+	memo := map[*ssa.Function]int{} // 0 unknown, 1 computing, 2 yes, 3 no
+	var must func(fn *ssa.Function, d int) bool
+	var lifted func(in ssa.Instruction, d int) bool
+	lifted = func(in ssa.Instruction, d int) bool {
+		if pass(in) {
+			return true
+		}
+		if d <= 0 || theProg == nil {
+			return false
+		}
+		ci, ok := in.(*ssa.Call)
+		if !ok {
+			return false
+		}
+		callee := staticCallee(ci)
+		if callee == nil || callee.Blocks == nil || !theProg.IsRepoFn(callee) {
+			return false
+		}
+		return must(callee, d-1)
+	}
+	must = func(fn *ssa.Function, d int) bool {
+		switch memo[fn] {
+		case 1, 3:
+			return false
+		case 2:
+			return true
+		}
+		memo[fn] = 1
+		blocked := func(b *ssa.BasicBlock) bool {
+			for _, in := range b.Instrs {
+				if lifted(in, d) {
+					return true
+				}
+			}
+			return false
+		}
+		isExit := func(b *ssa.BasicBlock) bool {
+			if len(b.Instrs) == 0 || b == fn.Recover {
+				return false
+			}
+			_, ok := b.Instrs[len(b.Instrs)-1].(*ssa.Return)
+			return ok
+		}
+		ok := psSearch(fn.Blocks[0], nil, blocked, isExit) == nil
+		// a function with no returning path at all does not "perform" anything
+		if ok {
+			any := false
+			for _, b := range fn.Blocks {
+				if blocked(b) {
+					any = true
+				}
+			}
+			ok = any
+		}
+		if ok {
+			memo[fn] = 2
+		} else {
+			memo[fn] = 3
+		}
+		return ok
+	}
+	return func(in ssa.Instruction) bool { return lifted(in, depth) }
+}
